@@ -77,7 +77,7 @@ def generate(rng, tier):
     cases = [gen_cache_case(rng, tier) for _ in range(40 if tier == "quick" else 400)]
     reps = 1 if tier == "quick" else 6
     for _ in range(reps):
-        for w in METHODS + METRICS:
+        for w in METHODS + METRICS + METRICS:        # metrics twice: their state (stored inputs, masks) is the likeliest to leak
             cases.append(gen_history_case(rng, w))
     return cases
 
